@@ -340,6 +340,11 @@ def generate():
     info = {"ops": {}, "sources": {}}
     tr.translate_function("evm_div")
     tr.translate_function("evm_mod")
+    # used by literal conversion (_convert._signextend) and by min_value / max_value (NumericT.int_bounds)
+    tr.arg_types_hint[("int_bounds", "signed")] = Ty.B
+    tr.arg_types_hint[("unsigned_to_signed", "strict")] = Ty.B
+    tr.translate_function("int_bounds")
+    tr.translate_function("unsigned_to_signed")
     oracle_ty = Ty.fn([Ty.Z, Ty.Z], Ty.B)
 
     def pull(modname, cls, meth, coqname, eval_fn_attr=False):
